@@ -396,6 +396,10 @@ class StmtMixin(CallMixin):
         self.st.env[sname] = src
         self.st.env['loop_i%d' % ordinal] = mk_int(0)       # nested loops: the outer loop's index/sequence stay visible by ordinal
         self.st.env['loop_seq%d' % ordinal] = src
+        for lem in L.get('assume_entry', ()):
+            # a hand-argued lemma about the loop's input, assumed (trusted) - listed in the evidence as such
+            self.notes.append('TRUSTED LEMMA assumed at loop #%d entry: %s' % (ordinal, lem[0]))
+            self.assume(self.spec_bool(lem[1], dict(self.st.env)))
         self.check_inv(L, 'entry', ordinal)
         self.havoc_for_loop(s.body, L)
         i = z3.Int(fresh_name('loop_i'))
